@@ -12,9 +12,11 @@ def verify_theory(T, repo, timeout_s=60, only=None, canaries=True):
   import z3
   base = list(T.axioms)
   for name, f in T.lemmas:
-    o = Obligation('%s/spec-lemma/%s' % (T.pid, name), 'lemma', base, f, detail='consequence of the spec definitions')
+    # lemma k is proved from the axioms and the lemmas before it (each proved in turn)
+    o = Obligation('%s/spec-lemma/%s' % (T.pid, name), 'lemma', list(base), f, detail='consequence of the spec definitions (and of the lemmas before it)')
     o.owner = 'spec'
     lemma_obls.append(o)
+    base.append(f)
   for name, f in T.lemmas:
     T.axioms.append(f)
   ex = Ex(T, repo)
